@@ -351,6 +351,14 @@ func (w *World) BuildGenesis(app *exocoreapp.ExocoreApp) (map[string]json.RawMes
 		totalPower += power
 	}
 	var tokens []assetstypes.StakingAssetInfo
+	if cfg.NativeInDogfood {
+		// the native token only counts towards voting power when it is a registered staking asset
+		chains = append(chains, assetstypes.ClientChainInfo{Name: "exocore", MetaInfo: "exocore native", ChainId: 0, FinalizationBlocks: 1, LayerZeroChainID: assetstypes.ExocoreChainLzID, AddressLength: 20})
+		tokens = append(tokens, assetstypes.StakingAssetInfo{
+			AssetBasicInfo:     assetstypes.AssetInfo{Name: "exo", Symbol: "exo", Address: assetstypes.ExocoreAssetAddr, Decimals: 18, LayerZeroChainID: assetstypes.ExocoreChainLzID, MetaInfo: "native"},
+			StakingTotalAmount: sdkmath.ZeroInt(),
+		})
+	}
 	for i, a := range cfg.Assets {
 		name := fmt.Sprintf("TOK%d", i)
 		if a.NST {
